@@ -10,6 +10,12 @@ Section IsoProof.
   Add Field IsoField : (@Fth F Fo Ff).
   Local Open Scope F_scope.
 
+  Lemma mul_neq0 : forall a b : F, a <> 0 -> b <> 0 -> a * b <> 0.
+  Proof.
+    intros a b Ha Hb H. apply Hb.
+    transitivity (/ a * (a * b)); [field; assumption | rewrite H; ring].
+  Qed.
+
   (* the repaired code: exactly -1/2 J S J *)
   Theorem iso_fixed_is_mds : forall n (G : mat F), of_nat n <> 0 ->
       meq n n (iso_fixed n G) (mds_ref n G).
@@ -98,6 +104,49 @@ Section IsoProof.
     rewrite rowsum_sym_avg, colsum_sym_avg, totsum_sym_avg by assumption.
     unfold sym_avg, neg_half. set (M := sq_mat G).
     rewrite !of_nat_mul.
-    unfold two in *. field. repeat split; assumption.
+    unfold two in *. field.
+    split; [exact Hn | split; [apply mul_neq0; exact H2 | exact H2]].
   Qed.
 End IsoProof.
+
+(* ---------- closed instances over Qc and the F23 witness ---------- *)
+From TK Require Import Dijkstra_Model Dijkstra_Spec Dijkstra_Proof.
+
+(* a geodesic table (None = unreachable, read as 0: Isomap requires a connected graph) *)
+Definition geo_qc (m : list (list (option Z))) : mat Qc :=
+  fun i j => match entry_of m i j with Some d => qz d | None => qz 0 end.
+
+(* the geodesics of the directed 3-cycle 0 -> 1 -> 2 -> 0 with |i-j| as distance:
+   [[0;1;2];[3;0;1];[2;3;0]] — asymmetric, as for any non-mutual k-NN relation *)
+Definition f23_G : mat Qc := geo_qc (sp_matrix f4_nbrs f4_w 3).
+
+Theorem iso_fixed_is_mds_Qc : forall n (G : mat Qc), n <> 0%nat ->
+    meq n n (iso_fixed n G) (mds_ref n G).
+Proof.
+  intros n G Hn. apply iso_fixed_is_mds. apply Qc_of_nat_neq0. assumption.
+Qed.
+
+Theorem iso_shipped_seen_Qc : forall n (G : mat Qc) i j, n <> 0%nat -> (i < n)%nat -> (j < n)%nat ->
+    seen_by_dense (iso_shipped n G) i j =
+    (mds_ref n G i j - (asym_delta n G i + asym_delta n G j) / (two * two))%F.
+Proof.
+  intros n G i j Hn Hi Hj. apply iso_shipped_seen; try assumption.
+  - apply Qc_of_nat_neq0. assumption.
+  - apply Qc_two_neq0.
+Qed.
+
+Theorem iso_shipped_ok_if_symmetric_Qc : forall n (G : mat Qc), n <> 0%nat ->
+    msym n G -> meq n n (iso_shipped n G) (mds_ref n G).
+Proof.
+  intros n G Hn HG. apply iso_shipped_ok_if_symmetric; try assumption.
+  - apply Qc_of_nat_neq0. assumption.
+  - apply Qc_two_neq0.
+Qed.
+
+(* the shipped matrix, even after the dense solver's own (M+M^T)/2, is not -1/2 J S J *)
+Theorem iso_shipped_not_mds :
+    seen_by_dense (iso_shipped 3 f23_G) 0%nat 0%nat <> mds_ref 3 f23_G 0%nat 0%nat /\
+    iso_shipped 3 f23_G 0%nat 0%nat <> mds_ref 3 f23_G 0%nat 0%nat.
+Proof.
+  split; intros H; apply (f_equal this) in H; vm_compute in H; discriminate.
+Qed.
